@@ -93,7 +93,14 @@ def binomProduct (n k : Nat) : Rat :=
   let m := min k (n - k)
   (List.range m).foldl (binomProductStep n m) 1
 
+/-- `Binomial_Coefficient` as coded after `fix:` 2890841: the product path for every `n`; the memo table is not touched -/
 def binomial (t : Tbl) (n k : Int) : Except Err Rat × Tbl :=
+  if k < 0 ∨ n < 0 then (.error .diag, t)
+  else if n < k then (.ok 0, t)
+  else (.ok (binomProduct n.toNat k.toNat), t)
+
+/-- the form before `fix:` 2890841: the floor formula through three factorials for `n ≤ 170` -/
+def binomialFactorial (t : Tbl) (n k : Int) : Except Err Rat × Tbl :=
   if k < 0 ∨ n < 0 then (.error .diag, t)
   else if n < k then (.ok 0, t)
   else if n > 170 then (.ok (binomProduct n.toNat k.toNat), t)
@@ -237,8 +244,8 @@ inductive QintBranch where
 /-- `tMin`, `tMax` and the branch, given `sq = sqrt(a)` -/
 def qintBranch (sq x a : Rat) : QintBranch × Rat × Rat :=
   let tPeak := a - 1
-  let tMin := rmax 0 (tPeak - 10 * sq)
-  let tMax := tPeak + 10 * sq
+  let tMin := rmax 0 (tPeak - 13 * sq)      -- N = 13 after `fix:` 3e583ff
+  let tMax := tPeak + 13 * sq
   (if x > tMax then .above else if x < tMin then .below else .integrate, tMin, tMax)
 
 /-- the panel loop (after `fix:` f69671d): `t_left = tMin; while(t_left < x) { t_right = min(x, t_left + sqrt(a));
@@ -307,16 +314,20 @@ def gammaP (E : Parts) (x a : Rat) : Except Err Rat := (gammaQ E x a).map (fun q
 def partsOf (T : Transc) (integ : Rat → Rat → Rat → Rat) (eps fpmin : Rat) (fuel : Nat) : Parts :=
   ⟨gammaPser T eps fuel, gammaQcf T eps fpmin fuel, fun x a => gammaQint T (integ a) fuel x a⟩
 
+/-- `Gamma(s) * fraction` as fixprop-C06-5 forms it: a zero fraction gives 0 before `Gamma(s)` is looked at
+    (in double: no `inf * 0`; where `Gamma(s)` is infinite the product is `exp(GammaLn(s) + log(fraction))`, the same real number) -/
+def gammaTimesFraction (g fraction : Rat) : Rat := if fraction = 0 then 0 else g * fraction
+
 /-- `Gamma(s) * GammaQ(x, s)` -/
 def upperGamma (T : Transc) (E : Parts) (x s : Rat) : Except Err Rat :=
   match gamma T s, gammaQ E x s with
-  | .ok g, .ok q => .ok (g * q)
+  | .ok g, .ok q => .ok (gammaTimesFraction g q)      -- `fix:` 242fd82
   | .error e, _ => .error e
   | _, .error e => .error e
 
 def lowerGamma (T : Transc) (E : Parts) (x s : Rat) : Except Err Rat :=
   match gamma T s, gammaP E x s with
-  | .ok g, .ok p => .ok (g * p)
+  | .ok g, .ok p => .ok (gammaTimesFraction g p)
   | .error e, _ => .error e
   | _, .error e => .error e
 
@@ -391,10 +402,6 @@ def invGammaQ (T : Transc) (P : Rat → Rat → Except Err Rat) (q a : Rat) : Ex
   else invGammaP T P (1 - q) a
 
 /-! ## Mirrors of the repairs proposed by the second audit (fixprop-C06-5, C06-6) -/
-
-/-- `Gamma(s) * fraction` as fixprop-C06-5 forms it: a zero fraction gives 0 before `Gamma(s)` is looked at
-    (in double: no `inf * 0`; where `Gamma(s)` is infinite the product is `exp(GammaLn(s) + log(fraction))`, the same real number) -/
-def gammaTimesFraction (g fraction : Rat) : Rat := if fraction = 0 then 0 else g * fraction
 
 /-- `Binomial_Coefficient` with the product path for every `n` (fixprop-C06-6): the memo table is not touched any more -/
 def binomialAll (n k : Int) : Except Err Rat :=
